@@ -252,7 +252,7 @@ type Options struct {
 func runGovc(opt Options) (*Report, error) {
 	t0 := time.Now()
 	g := &Gen{typeIDs: map[string]int{}, strLits: map[string]int{}, writeSets: map[*ssa.Function]*writeSet{},
-		compSortHints: map[string]Sort{}, timeoutS: opt.Timeout, verbose: opt.Verbose}
+		compSortHints: map[string]Sort{}, stable: map[string]map[string]bool{}, timeoutS: opt.Timeout, verbose: opt.Verbose}
 	g.repoMod = "github.com/wundergraph/graphql-go-tools"
 	tags := opt.Tags
 	if tags == "" {
@@ -334,6 +334,11 @@ func runGovc(opt Options) (*Report, error) {
 	}
 	t1 := time.Now()
 	var all []*Obligation
+	for _, o := range g.checkStableDecls() {
+		if roots[g.declPkgOf(o)] {
+			all = append(all, o)
+		}
+	}
 	var fgs []*FnGen
 	for _, k := range g.cs.sortedKeys() {
 		c := g.cs.ByKey[k]
@@ -552,3 +557,12 @@ func (o *Obligation) query() string {
 	return sb.String()
 }
 
+
+func (g *Gen) declPkgOf(o *Obligation) string {
+	for _, d := range g.cs.Decls {
+		if d.Kind == "stable" && len(d.Args) > 0 && strings.HasPrefix(o.Name, g.shortPkg(d.PkgPath)+"."+d.Args[0]+"#") {
+			return d.PkgPath
+		}
+	}
+	return ""
+}
